@@ -6,7 +6,7 @@
 ROOT=$(cd "$(dirname "$0")/.." && pwd)
 cd "$ROOT" || exit 2
 ./setup.sh > /tmp/matrix_setup.log 2>&1 || { echo "setup failed"; exit 2; }
-WT=/tmp/repo_matrix
+WT=${MATRIX_WT:-/tmp/repo_matrix}
 git -C /repo worktree remove --force $WT 2>/dev/null; git -C /repo worktree prune
 git -C /repo worktree add -q --detach $WT HEAD || exit 2
 export VERIF_REPO=$WT
